@@ -4,3 +4,4 @@ import SqlcModel.Props.C08
 import SqlcModel.Props.C17
 import SqlcModel.Props.C04
 import SqlcModel.Props.C11
+import SqlcModel.Props.C12
